@@ -357,3 +357,118 @@ Proof.
   rewrite (map_nth (fun p => fold_right Z.add 0 (map (fun r => if nth p (er_match r) false then if dedup then 1 else er_freq r else 0) rows)) (seq 0 np) O p).
   rewrite seq_nth by exact H. reflexivity.
 Qed.
+
+(* ---------------------------------------------------------------- each example is credited once *)
+
+(* the first listed expression that matches the example *)
+Definition first_match (order : list nat) (r : example_row) : option nat :=
+  List.find (fun p => nth p (er_match r) false) order.
+
+Definition credit (d : bool) (order : list nat) (rows : list example_row) (p : nat) : Z :=
+  fold_right Z.add 0 (map (fun r => match first_match order r with
+                                    | Some q => if Nat.eqb q p then weight d r else 0
+                                    | None => 0 end) rows).
+
+Lemma first_match_app order p r :
+  first_match (order ++ [p]) r =
+  match first_match order r with
+  | Some q => Some q
+  | None => if nth p (er_match r) false then Some p else None
+  end.
+Proof.
+  unfold first_match. induction order as [|q order IH]; cbn [app List.find].
+  - destruct (nth p (er_match r) false); reflexivity.
+  - destruct (nth q (er_match r) false); [reflexivity|exact IH].
+Qed.
+
+Lemma first_match_in order r q : first_match order r = Some q -> In q order.
+Proof. unfold first_match. intro H. apply List.find_some in H. tauto. Qed.
+
+(* live rows are exactly those no selected expression matches *)
+Definition live_inv (rows : list (bool * example_row)) (order : list nat) : Prop :=
+  forall lr, In lr rows -> (fst lr = true <-> first_match order (snd lr) = None).
+
+Lemma live_inv_kill rows order p : live_inv rows order -> live_inv (kill p rows) (order ++ [p]).
+Proof.
+  unfold live_inv, kill. intros H lr Hin. apply in_map_iff in Hin as [[l r] [<- Hin]].
+  specialize (H _ Hin). cbn [fst snd] in *.
+  destruct l, (nth p (er_match r) false) eqn:En; cbn [andb fst snd]; rewrite first_match_app, ?En.
+  - destruct H as [H _]. rewrite (H eq_refl). split; congruence.
+  - destruct H as [H _]. rewrite (H eq_refl). split; congruence.
+  - destruct (first_match order r); [split; congruence|]. destruct H as [_ H]. specialize (H eq_refl). discriminate.
+  - destruct (first_match order r); [split; congruence|]. destruct H as [_ H]. specialize (H eq_refl). discriminate.
+Qed.
+
+Lemma live_total_credit rows order p d : live_inv rows order -> ~ In p order ->
+  live_total rows p d = credit d (order ++ [p]) (map snd rows) p.
+Proof.
+  intros Hinv Hnp. rewrite live_total_unfold. unfold credit. rewrite map_map.
+  assert (Hext : forall lr, In lr rows ->
+     (if fst lr && nth p (er_match (snd lr)) false then weight d (snd lr) else 0) =
+     match first_match (order ++ [p]) (snd lr) with Some q => if Nat.eqb q p then weight d (snd lr) else 0 | None => 0 end).
+  { intros [l r] Hin. specialize (Hinv _ Hin). cbn [fst snd] in *. rewrite first_match_app.
+    destruct (first_match order r) as [q|] eqn:Eq.
+    - destruct l; [destruct Hinv as [Hi _]; specialize (Hi eq_refl); discriminate|]. cbn [andb].
+      destruct (Nat.eqb_spec q p) as [->|]; [|reflexivity]. exfalso. apply Hnp. eapply first_match_in. exact Eq.
+    - destruct l; [|destruct Hinv as [_ Hi]; specialize (Hi eq_refl); discriminate]. cbn [andb].
+      destruct (nth p (er_match r) false); [rewrite Nat.eqb_refl; reflexivity|reflexivity]. }
+  clear Hinv. induction rows as [|lr rows IH]; [reflexivity|]. cbn [map fold_right].
+  rewrite Hext by (left; reflexivity). rewrite IH; [reflexivity|]. intros x Hx. apply Hext. right; exact Hx.
+Qed.
+
+Lemma credit_app_other d order p rows q : q <> p -> credit d (order ++ [p]) rows q = credit d order rows q.
+Proof.
+  intro Hne. unfold credit. induction rows as [|r rows IH]; [reflexivity|]. cbn [map fold_right]. rewrite IH. f_equal.
+  rewrite first_match_app. destruct (first_match order r) as [x|]; [reflexivity|].
+  destruct (nth p (er_match r) false); [|reflexivity].
+  destruct (Nat.eqb_spec p q); [congruence|reflexivity].
+Qed.
+
+Theorem credit_proof fuel : forall np sd full rows done,
+  live_inv rows (map c_rex done) ->
+  NoDup (map c_rex done) ->
+  (forall c, In c done -> c_incr c = credit false (map c_rex done) (map snd rows) (c_rex c) /\
+                          c_incr_uniq c = credit true (map c_rex done) (map snd rows) (c_rex c)) ->
+  let res := fst (greedy fuel np sd full rows done) in
+  forall c, In c res -> c_incr c = credit false (map c_rex res) (map snd rows) (c_rex c) /\
+                        c_incr_uniq c = credit true (map c_rex res) (map snd rows) (c_rex c).
+Proof.
+  induction fuel as [|f IH]; intros np sd full rows done Hinv Hnd Hc; cbn [greedy]; [exact Hc|].
+  destruct (Nat.leb np (length done)); [exact Hc|].
+  destruct (Z.ltb 0 _); [|exact Hc].
+  destruct (mem_natb _ _) eqn:Em; [exact Hc|].
+  set (p := first_ge (totals_of rows np sd) (zmax_l (totals_of rows np sd)) 0) in *.
+  assert (Hnp : ~ In p (map c_rex done)).
+  { intro Hin. unfold mem_natb in Em.
+    assert (existsb (Nat.eqb p) (map c_rex done) = true) by (apply existsb_exists; eexists; split; [exact Hin|apply Nat.eqb_refl]).
+    congruence. }
+  assert (Hrows : map snd (kill p rows) = map snd rows).
+  { unfold kill. rewrite map_map. apply map_ext. intros [l r]. cbn [fst snd]. destruct (l && _); reflexivity. }
+  cbv zeta in IH. intros c Hin. rewrite <- Hrows. revert c Hin. apply IH.
+  - rewrite map_app. cbn [map c_rex]. apply live_inv_kill. exact Hinv.
+  - rewrite map_app. cbn [map c_rex]. apply NoDup_app_one; assumption.
+  - intros c Hin. rewrite map_app. cbn [map c_rex]. rewrite Hrows.
+    apply in_app_or in Hin as [Hin|[<-|[]]].
+    + assert (c_rex c <> p) by (intro E; apply Hnp; rewrite <- E; apply in_map; exact Hin).
+      rewrite !credit_app_other by assumption. apply Hc. exact Hin.
+    + cbn [c_rex c_incr c_incr_uniq]. split; apply live_total_credit; assumption.
+Qed.
+
+(* every listed figure is the weight of the examples whose first matching listed expression it is *)
+Theorem incr_credit_proof rows np sd :
+  let res := incremental rows np sd in
+  forall c, In c res -> c_incr c = credit false (map c_rex res) rows (c_rex c) /\
+                        c_incr_uniq c = credit true (map c_rex res) rows (c_rex c).
+Proof.
+  unfold incremental.
+  pose proof (credit_proof (S np) np sd rows (start rows) []) as H. cbv zeta in H.
+  assert (Hs : map snd (start rows) = rows).
+  { unfold start. rewrite map_map. cbn [snd]. apply map_id. }
+  rewrite Hs in H. apply H.
+  - intros lr Hin. unfold start in Hin. apply in_map_iff in Hin as [r [<- _]]. cbn. tauto.
+  - constructor.
+  - intros c [].
+Qed.
+
+Theorem selected_distinct_run rows np sd : NoDup (map c_rex (incremental rows np sd)).
+Proof. unfold incremental. apply selected_distinct_proof. constructor. Qed.
